@@ -56,10 +56,16 @@ def _names_any(body: list[ast.stmt]) -> set[str]:
 
 
 class _Helper:
-    def __init__(self, fn: ast.FunctionDef, is_method: bool) -> None:
+    def __init__(self, fn: ast.FunctionDef, is_method: bool, nested: bool = False) -> None:
         self.fn = fn
         self.is_method = is_method
+        self.nested = nested
         self.body = _body(fn)
+        # a nested function: the names it declares nonlocal are the caller's own variables once its body stands in the caller
+        self.keep: set[str] = set()
+        if nested:
+            self.keep = {nm for s in self.body if isinstance(s, ast.Nonlocal) for nm in s.names}
+            self.body = [s for s in self.body if not isinstance(s, ast.Nonlocal)]
         own = list(_walk_own(self.body))
         self.returns = [x for x in own if isinstance(x, ast.Return)]
         self.is_gen = any(isinstance(x, (ast.Yield, ast.YieldFrom)) for x in own)
@@ -157,7 +163,7 @@ def _bind(h: _Helper, call: ast.Call, caller_names: set[str], tag: str) -> tuple
             fresh = p if (p not in caller_names and p not in mapping) else f'_{tag}_{p}'
             pre.append(ast.copy_location(ast.Assign(targets=[ast.Name(id=fresh, ctx=ast.Store())], value=a, lineno=call.lineno), call))
             mapping[p] = ast.Name(id=fresh, ctx=ast.Load())
-    for loc in sorted(assigned - set(params)):
+    for loc in sorted(assigned - set(params) - h.keep):
         if loc in caller_names:
             mapping[loc] = ast.Name(id=f'_{tag}_{loc}', ctx=ast.Load())
     return pre, mapping
@@ -372,12 +378,21 @@ def unhelper(tree: ast.Module, module: str) -> int:
                 hs = {k: v for k, v in hs.items() if v.kind}
                 scopes.append((hs, [f for f in c.body if isinstance(f, ast.FunctionDef)]))
         for hs, fns in scopes:
-            if not hs and not mod_helpers:
-                continue
             for fn in fns:
-                inl = _Inliner(hs, mod_helpers, fn)
+                # closures defined directly in the function that are not part of the pinned vocabulary
+                owner = next((c.name for c in tree.body if isinstance(c, ast.ClassDef) and fn in c.body), None)
+                fq0 = f'{module}:{owner}.{fn.name}' if owner else f'{module}:{fn.name}'
+                nh = {g.name: _Helper(g, False, nested=True) for g in fn.body
+                      if isinstance(g, ast.FunctionDef) and f'{fq0}.{g.name}' not in PINNED_FUNCTIONS}
+                nh = {k: v for k, v in nh.items() if v.kind}
+                if not hs and not mod_helpers and not nh:
+                    continue
+                inl = _Inliner(hs, {**mod_helpers, **nh}, fn)
                 fn.body = inl._stmts(fn.body)
                 n += inl.count
+                for k, v in nh.items():
+                    if not any(isinstance(x, ast.Name) and x.id == k for s in fn.body if s is not v.fn for x in ast.walk(s)):
+                        fn.body = [s for s in fn.body if s is not v.fn]
         total += n
         if not n:
             break
